@@ -72,7 +72,7 @@ PROPS = {
             'the inference from "status is never reset on an unwind path" to "no partial result is ever readable" is a written argument',
         ]),
     'C06': dict(
-        units=['nodepred'], level='other',
+        units=['nodepred', 'heaps', 'var'], level='other',
         replays=[],
         uncovered=[
             'maybe_change_value / maybe_change_value_manual / child_changed bodies (interleaved writes on several nodes): frame obligations only',
@@ -90,7 +90,7 @@ PROPS = {
 # functions of shared units count for a property only if tagged with it (//@ props:), lemmas via LEMMA_PROPS
 LEMMA_PROPS = {
     'symfold': {'*': ['C18']},
-    'heaps': {'*': ['C19']},
+    'heaps': {'lemma_reconfiguring_keeps_every_queued_node_reachable': ['C06', 'C19'], '*': ['C19']},
     'heightwalk': {'*': ['C19']},
     'expert': {'*': ['C14']},
     'handlers': {'*': ['C09']},
